@@ -227,7 +227,9 @@ def enc(x):
         return {"__tuple__": [enc(e) for e in x]}
     if isinstance(x, list):
         return [enc(e) for e in x]
-    if isinstance(x, (set, frozenset)):
+    if isinstance(x, frozenset):
+        return {"__fset__": [enc(e) for e in sorted(x, key=lambda e: (str(type(e)), e))]}
+    if isinstance(x, set):
         return {"__set__": [enc(e) for e in sorted(x, key=lambda e: (str(type(e)), e))]}
     if isinstance(x, dict):
         return {"__dict__": [[enc(k), enc(v)] for k, v in x.items()]}
@@ -262,6 +264,8 @@ def dec(j):
             return tuple(dec(e) for e in j["__tuple__"])
         if "__set__" in j:
             return set(dec(e) for e in j["__set__"])
+        if "__fset__" in j:
+            return frozenset(dec(e) for e in j["__fset__"])
         if "__dict__" in j:
             return dict((dec(k), dec(v)) for k, v in j["__dict__"])
         if "__range__" in j:
